@@ -6,10 +6,11 @@ only answers with names of its own scope before the position, methods skip class
 `global` bindings are merged at module level, and the two implementations of the
 "header belongs to the outer scope" rule agree."""
 import ast
+import os
 
 from ..core import AnchorError, call_name, norm, short, own_nodes, kwarg, FUNC_TYPES
 from ..cfg import cfg_of
-from ..lib import calls_in, stmts_in, gate, must_pass, node_has, params
+from ..lib import calls_in, stmts_in, gate, must_pass, node_has, params, dominating_facts
 
 CTX = 'jedi.inference.context'
 FIL = 'jedi.inference.filters'
@@ -250,14 +251,89 @@ def rule_g(repo, chk):
     chk.ob('C03.g', ok, gp, 'get_parent_scope exempts exactly the parameter\'s own name (param.name == node, which also covers *args/**kwargs)', str(tests))
     ok = "node.parent.type == 'tfpdef' and node.parent.children[0] == node" in tests
     chk.ob('C03.g', ok, gp, 'get_parent_scope exempts the name of an annotated parameter (tfpdef: NAME [":" test]) — listed difference to create_context')
-    kinds = [norm(x) for x in own_nodes(gp) if isinstance(x, ast.Compare) and 'scope.type in' in norm(x)]
-    ok = kinds == ["scope.type in ('classdef', 'funcdef', 'lambdef')"]
-    chk.ob('C03.g', ok, gp, 'the header rule applies to classdef, funcdef and lambdef', str(kinds))
-    # comprehension: the part evaluated in the enclosing scope is routed to the parent context
+    def type_set(fn, subject):
+        out = []
+        for x in own_nodes(fn):
+            if isinstance(x, ast.Compare) and len(x.ops) == 1 and isinstance(x.ops[0], ast.In) and norm(x.left) == subject + '.type' \
+                    and isinstance(x.comparators[0], (ast.Tuple, ast.List, ast.Set)):
+                out.append(frozenset(e.value for e in x.comparators[0].elts if isinstance(e, ast.Constant)))
+        return out
+    kinds_gp = [k for k in type_set(gp, 'scope') if 'funcdef' in k]
+    ok = kinds_gp == [frozenset({'classdef', 'funcdef', 'lambdef'})]
+    chk.ob('C03.g', ok, gp, 'the header rule applies to classdef, funcdef and lambdef', str([sorted(k) for k in kinds_gp]))
+    # the sibling applies the header rule to the same kinds of scope (defaults of a lambda are evaluated outside it, like those of a def)
+    hdr = [x for x in own_nodes(pc) if isinstance(x, ast.If) and any(isinstance(y, ast.Compare) and 'colon.start_pos' in norm(y) for y in ast.walk(x))]
+    kinds_pc = []
+    for h in hdr:
+        for e, pol in []:
+            pass
+    for x in own_nodes(pc):
+        if isinstance(x, ast.If) and isinstance(x.test, ast.Compare) and norm(x.test.left) == 'scope_node.type' and isinstance(x.test.ops[0], ast.In) \
+                and any(isinstance(y, ast.Compare) and 'colon.start_pos' in norm(y) for y in ast.walk(x)):
+            kinds_pc.append(frozenset(e.value for e in x.test.comparators[0].elts if isinstance(e, ast.Constant)))
+    ok = bool(kinds_gp) and kinds_pc == kinds_gp
+    chk.ob('C03.g', ok, pc, 'siblings agree on WHICH scopes have a header: create_context applies the `:` rule to the same node types as get_parent_scope',
+           'create_context: %s, get_parent_scope: %s' % ([sorted(k) for k in kinds_pc], [sorted(k) for k in kinds_gp]), key='header-kinds')
+    # comprehension: the part evaluated in the enclosing scope (the iterable after `in`) is routed to the parent context
     fs = repo.find(CTX, 'TreeContextMixin.create_context.from_scope_node')
     rets = [r for r in stmts_in(fs, ast.Return) if norm(r.value) == 'parent_context']
-    ok = len(rets) == 1 and gate(fs, rets[0], lambda e, pol: pol and norm(e) == 'node.start_pos >= scope_node.children[-1].start_pos') is None
-    chk.ob('C03.g', ok, fs, 'in a comprehension scope the trailing iterable part is routed to the parent context')
+    ok = len(rets) == 1 and gate(fs, rets[0], lambda e, pol: pol and isinstance(e, ast.Compare) and 'node.start_pos' in norm(e)) is None
+    chk.ob('C03.g', ok, fs, 'in a comprehension scope a part selected by position is routed to the parent context')
+
+
+def _optional_tail(g, rule):
+    """does some alternative of the production end in an optional group `[...]` after at least two mandatory symbols?  Then the node
+    exists with and without that tail and a negative child index denotes different things."""
+    for alt in g.alternatives(rule):
+        if len(alt) >= 4 and alt[-1] == ']':
+            depth = 0
+            for i in range(len(alt) - 1, -1, -1):
+                if alt[i] == ']':
+                    depth += 1
+                elif alt[i] == '[':
+                    depth -= 1
+                    if depth == 0:
+                        break
+            mandatory = [t for t in alt[:i] if t not in '()[]*+|']
+            if len(mandatory) >= 2:
+                return ' '.join(alt)
+    return None
+
+
+def rule_i(repo, chk):
+    chk.clause('C03.i', 'a negative child index (children[-1], [-2]) on a node whose type is known and whose grammar production ends in an optional '
+                        'group (derived from parso\'s grammar file: sync_comp_for ends in [comp_iter], if_stmt in [else ...]) names different '
+                        'things depending on the optional tail; such an index must not select a role (here: "the iterable of the '
+                        'comprehension", which decides whether a name belongs to the comprehension scope); package-wide')
+    from .. import grammar as G
+    from .c01 import _positive_type_test
+    g = G.Grammar('3.12')
+    chk.trust('parso grammar file %s (productions)' % os.path.basename(g.path))
+    n = 0
+    for m in sorted(repo.modules.values(), key=lambda m: m.name):
+        for q, f in sorted(m.defs.items()):
+            if not isinstance(f, FUNC_TYPES):
+                continue
+            for x in own_nodes(f):
+                if not (isinstance(x, ast.Subscript) and isinstance(x.value, ast.Attribute) and x.value.attr == 'children'
+                        and isinstance(x.slice, ast.UnaryOp) and isinstance(x.slice.op, ast.USub) and isinstance(x.slice.operand, ast.Constant)):
+                    continue
+                subject = norm(x.value.value)
+                types = set()
+                for e, pol in dominating_facts(f, x):
+                    if isinstance(e, ast.Compare) and len(e.ops) == 1 and isinstance(e.left, ast.Attribute) and e.left.attr == 'type' \
+                            and norm(e.left.value) == subject and ((isinstance(e.ops[0], (ast.Eq, ast.In)) and pol) or
+                                                                   (isinstance(e.ops[0], (ast.NotEq, ast.NotIn)) and not pol)):
+                        cmp_ = e.comparators[0]
+                        types |= {v.value for v in cmp_.elts if isinstance(v, ast.Constant)} if isinstance(cmp_, (ast.Tuple, ast.List, ast.Set)) else \
+                            ({cmp_.value} if isinstance(cmp_, ast.Constant) else set())
+                if not types:
+                    continue
+                n += 1
+                amb = {t: _optional_tail(g, t) for t in sorted(types) if t in g.rules and _optional_tail(g, t)}
+                chk.ob('C03.i', not amb, x, '`%s` in %s (node type %s) denotes one role' % (short(x, 50), q, '/'.join(sorted(types))),
+                       'production with an optional tail: %s' % '; '.join('%s: %s' % kv for kv in amb.items()), key='opt-tail|%s:%s|%s' % (m.name, q, norm(x)))
+    chk.floor('C03.i', n, 5, '(negative child indices on nodes of known type)')
 
 
 def rule_h(repo, chk):
@@ -292,4 +368,4 @@ def describe(chk):
                   'the position limit chosen by AbstractTreeName.goto for walrus/lambda bodies')
 
 
-RULES = [('C03.a', rule_a), ('C03.b', rule_b), ('C03.c', rule_c), ('C03.d', rule_d), ('C03.e', rule_e), ('C03.f', rule_f), ('C03.g', rule_g), ('C03.h', rule_h)]
+RULES = [('C03.a', rule_a), ('C03.b', rule_b), ('C03.c', rule_c), ('C03.d', rule_d), ('C03.e', rule_e), ('C03.f', rule_f), ('C03.g', rule_g), ('C03.h', rule_h), ('C03.i', rule_i)]
